@@ -23,7 +23,7 @@ RULE = ("generated expressions (depth <= 4; symbols of 1-3 characters, escaped o
 EXPLANATION = "pyformlang's parser / automaton / grammar / printer compared with the reference parser through certified language equivalence."
 
 SYMS = ["a", "b", "c", "ab", "abc", "x1"]
-ESC = ["*", "(", ")", "|", "+", "."]
+ESC = ["*", "(", ")", "|", "+", ".", "+ab", "(x", ".5", "*a", "|y", ")z"]
 
 
 def rand_ast(rng, depth):
